@@ -2,7 +2,7 @@
    res0.c, codebook.c, bitrate.c, synthesis.c)
    ops:
      case <id>
-     enc <ch> <rate> <q|m<max>:<nom>:<min>[:res:bias]> <sig> <seed> <n>
+     enc <ch> <rate> <q|m<max>:<nom>:<min>[:res:bias]> <sig> <seed> <n> [d]      d: packets taken straight from vorbis_analysis(vb,&op) (unmanaged streams)
    answers:
      info rc=.. ch=.. rate=.. bs0=.. bs1=.. br=u,n,l managed=.. hardmax=..
      op hdr 1 <hex> / op hdr 0 <hex> ...           the c02-stream operations a model replay needs
@@ -71,8 +71,12 @@ static int c05_main(int argc,char **argv){
           b[c][i]=v; } vorbis_analysis_wrote(&vd,todo); done+=todo; }
         else vorbis_analysis_wrote(&vd,0);
         while(vorbis_analysis_blockout(&vd,&vb)==1){
-          vorbis_analysis(&vb,NULL); vorbis_bitrate_addblock(&vb);
-          while(vorbis_bitrate_flushpacket(&vd,&op)){
+          /* two documented ways to get the packet of a block: through the rate manager (addblock/flushpacket), or, on an unmanaged stream,
+             straight from vorbis_analysis(vb,&op) — token 8 = 'd' takes the second */
+          int direct=(n>=8&&tok[7][0]=='d'&&!managed),got;
+          if(direct) got=(vorbis_analysis(&vb,&op)==0);
+          else{ vorbis_analysis(&vb,NULL); vorbis_bitrate_addblock(&vb); got=vorbis_bitrate_flushpacket(&vd,&op); }
+          for(;got;got=direct?0:vorbis_bitrate_flushpacket(&vd,&op)){
             int drc,brc=-999; long cnt=-1; float **pcm; long bits=-1; int dead=0;
             npk++;
             printf("op pkt "); puthex(op.packet,op.bytes); printf(" %lld %ld %lld\n",(long long)op.granulepos,(long)op.e_o_s,(long long)op.packetno);
